@@ -81,15 +81,15 @@ func runWorkerOp(req wReq) (res wRes) {
 // ---- parent side ----
 
 type Worker struct {
-	c      *Ctx
-	env    []string
-	memKB  int64
-	cmd    *exec.Cmd
-	in     io.WriteCloser
-	out    *bufio.Reader
-	stderr *tailBuf
-	n      int
-	mu     sync.Mutex
+	c        *Ctx
+	env      []string
+	memKB    int64
+	cmd      *exec.Cmd
+	in       io.WriteCloser
+	out      *bufio.Reader
+	stderr   *tailBuf
+	n        int
+	mu       sync.Mutex
 	startCmd func() *exec.Cmd // overrides the default (this binary under ulimit -v)
 }
 
